@@ -85,6 +85,12 @@ Theorem C20_builder_uids_distinct : forall k cs st' rs, run (init k) cs = Ok (st
 Proof. exact builder_uids_distinct. Qed.
 Print Assumptions C20_builder_uids_distinct.
 
+(* distinct builder objects never share a node *)
+Theorem C20_builders_disjoint : forall k cs st' rs, run (init k) cs = Ok (st', rs) ->
+  forall b b' x, b <> b' -> reachable st' b x -> reachable st' b' x -> False.
+Proof. exact builders_disjoint. Qed.
+Print Assumptions C20_builders_disjoint.
+
 (* the executable oracle used on the observed graphs never misses a defect: when it answers
    true the canonical graph is closed, has duplicate-free parent lists and no cycle *)
 Theorem C20_oracle_sound : forall g, graph_ok g = true ->
@@ -94,20 +100,52 @@ Theorem C20_oracle_sound : forall g, graph_ok g = true ->
 Proof. exact graph_ok_sound. Qed.
 Print Assumptions C20_oracle_sound.
 
+(* ---- non-vacuity of the builder theorems *)
+(* a call sequence with branches, a refused and an accepted skip connection, a self-merge and a
+   build: runs to Ok, the last call returns a graph of 6 fresh cells *)
+Example builder_run_nontrivial :
+  exists st g, run (init 2) [AddSequence 0 [Some (OStr "a"); Some (OStr "b"); Some (OStr "c")] 0%Z;
+                             AddSkip 0 0%Z 0%Z 0%Z 2%Z; AddSkip 0 0%Z 0%Z 2%Z 0%Z;
+                             Merge 0 0; Build 2] = Ok (st, [RSelf; RSelf; RSelf; RBuilder 2; RGraph g])
+            /\ length g = 6 /\ length (s_bs st) = 3.
+Proof. eexists. eexists. vm_compute. repeat split. Qed.
+
+(* the hypotheses of the two-builds theorem are met by a non-empty builder *)
+Example build_twice_hypotheses_satisfiable :
+  exists st st1 g1 st2 g2, inv st /\ step st (Build 0) = Ok (st1, RGraph g1) /\
+    step st1 (Build 0) = Ok (st2, RGraph g2) /\ length g1 = 3.
+Proof.
+  destruct (run_ok [GrowBranches 0 [Some (OStr "a"); Some (OStr "b")]; JoinBranches 0 (Some "j"%string) 1] (init 1) (inv_init 1))
+    as (st & rs & E & Hinv).
+  vm_compute in E. inversion E; subst st. clear E.
+  eexists. eexists. eexists. eexists. eexists. split; [exact Hinv|]. vm_compute. repeat split.
+Qed.
+
 (* ================================================================== the generators *)
 Import Gen.Factory Gen.FactoryProofs.
 
-(* (4) random_graph, for every verifier, requirements, override, choice stream: a returned graph
-   is accepted by the verifier, not deeper than the bound, arities within [min, max]; otherwise
-   ValueError - because the arity range is empty or exactly after max_attempts + 1 attempts.
-   The loop never needs more fuel than the model gives it (no third outcome). *)
-Theorem C20_random_graph_contract : forall V rq arg ntypes max_attempts attempts,
-  match random_graph V rq arg ntypes max_attempts attempts with
-  | (Ok t, n) => V t = true /\ tdepth t <= depth_bound rq arg /\ arity_ok rq t = true /\ 1 <= n <= max_attempts
+(* (4) random_graph, for every verifier, requirements, override, node factory, choice stream: a
+   returned graph is accepted by the verifier, not deeper than the bound, no node has more than
+   max_arity parents, and - for a TOTAL node factory (partial = false: get_node() never answers
+   None) - every non-leaf node has at least min_arity parents; otherwise ValueError - because the
+   arity range is empty or exactly after max_attempts + 1 attempts.  The loop never needs more
+   fuel than the model gives it (there is no third outcome). *)
+Theorem C20_random_graph_contract : forall V rq arg partial ntypes max_attempts attempts,
+  match random_graph V rq arg partial ntypes max_attempts attempts with
+  | (Ok t, n) => V t = true /\ tdepth t <= depth_bound rq arg /\ arity_upper_ok rq t = true /\
+                 (partial = false -> arity_ok rq t = true) /\ 1 <= n <= max_attempts
   | (Raise e, n) => e = ValueError /\ (max_arity rq < min_arity rq \/ n = S max_attempts)
   end.
 Proof. exact random_graph_contract. Qed.
 Print Assumptions C20_random_graph_contract.
+
+(* with a partial node factory the lower arity bound can fail: min = max = 2, the second
+   get_node() of the root's growth answers None *)
+Theorem C20_partial_factory_min_arity_refuted :
+  exists t n, random_graph (fun _ => true) (mkReq 2 2 2) None true 1 1000 [[1; 0; 1; 0]] = (Ok t, n) /\
+              arity_ok (mkReq 2 2 2) t = false.
+Proof. eexists. eexists. vm_compute. split; reflexivity. Qed.
+Print Assumptions C20_partial_factory_min_arity_refuted.
 
 (* the bound is requirements.max_depth when there is no override, and the override when it is
    at least 2 (an override of 1 or 0 with requirements.max_depth > 1 is the quirk of docs/C20.md) *)
@@ -140,34 +178,14 @@ Qed.
 Print Assumptions C20_initial_population_contract.
 
 (* ================================================================== non-vacuity *)
-(* a call sequence with branches, a refused and an accepted skip connection, a self-merge and a
-   build: runs to Ok, the last call returns a graph of 6 fresh cells *)
-Example builder_run_nontrivial :
-  exists st g, run (init 2) [AddSequence 0 [Some (OStr "a"); Some (OStr "b"); Some (OStr "c")] 0%Z;
-                             AddSkip 0 0%Z 0%Z 0%Z 2%Z; AddSkip 0 0%Z 0%Z 2%Z 0%Z;
-                             Merge 0 0; Build 2] = Ok (st, [RSelf; RSelf; RSelf; RBuilder 2; RGraph g])
-            /\ length g = 6 /\ length (s_bs st) = 3.
-Proof. eexists. eexists. vm_compute. repeat split. Qed.
-
-(* the hypotheses of the two-builds theorem are met by a non-empty builder *)
-Example build_twice_hypotheses_satisfiable :
-  exists st st1 g1 st2 g2, inv st /\ step st (Build 0) = Ok (st1, RGraph g1) /\
-    step st1 (Build 0) = Ok (st2, RGraph g2) /\ length g1 = 3.
-Proof.
-  destruct (run_ok [GrowBranches 0 [Some (OStr "a"); Some (OStr "b")]; JoinBranches 0 (Some "j"%string) 1] (init 1) (inv_init 1))
-    as (st & rs & E & Hinv).
-  vm_compute in E. inversion E; subst st. clear E.
-  eexists. eexists. eexists. eexists. eexists. split; [exact Hinv|]. vm_compute. repeat split.
-Qed.
-
 (* random_graph: a choice stream for which the second attempt is accepted *)
 Example random_graph_nontrivial :
-  exists t, random_graph (veval (VMinDepth 3)) (mkReq 3 1 2) None 2 1000 [[0; 0; 1; 0]; [1; 1; 0; 1; 0; 0; 1; 0]]
+  exists t, random_graph (veval (VMinDepth 3)) (mkReq 3 1 2) None false 2 1000 [[0; 0; 1; 0]; [1; 1; 0; 1; 0; 0; 1; 0]]
             = (Ok t, 2) /\ tdepth t = 3.
 Proof. eexists. vm_compute. split; reflexivity. Qed.
 
 Example random_graph_gives_up :
-  random_graph (veval VNever) (mkReq 2 1 1) None 1 3 [] = (Raise ValueError, 4).
+  random_graph (veval VNever) (mkReq 2 1 1) None false 1 3 [] = (Raise ValueError, 4).
 Proof. reflexivity. Qed.
 
 (* the population loop drops a duplicate and a rejected graph *)
